@@ -69,11 +69,11 @@ func (c *Conn) handleAppend(tag string, dec *imapwire.Decoder) error {
 	}
 
 	if lit.Size() > appendLimit {
-		return &imap.Error{
+		return c.refuseLiteral(nonSync, &imap.Error{
 			Type: imap.StatusResponseTypeNo,
 			Code: imap.ResponseCodeTooBig,
 			Text: fmt.Sprintf("Literals are limited to %v bytes for this command", appendLimit),
-		}
+		})
 	}
 	if err := c.acceptLiteral(lit.Size(), nonSync); err != nil {
 		return err
